@@ -101,7 +101,8 @@ MapC(t, columns, cs) ==
 RECURSIVE TreeCDomain(_)
 TreeCDomain(t) ==
   CASE t.k \in {"raw", "orig"} -> IsAscii(t.b)
-    [] t.k = "sms" -> IF t.inner = <<>> THEN AsciiConsistent(t) ELSE C09DomainM(t)
+    [] t.k = "sms" -> IF t.inner = <<>> THEN AsciiConsistent(t) /\ SmallSegs(t.map)
+                      ELSE C09DomainM(t) /\ SmallSegs(t.map) /\ SmallSegs(t.inner[1])
     [] t.k = "concat" -> LET ch == Children(t) IN \A i \in 1..Len(ch) : TreeCDomain(ch[i])
     [] t.k \in {"replace", "box", "cached"} -> TreeCDomain(t.inner)
     [] OTHER -> FALSE
